@@ -101,6 +101,17 @@ macro_rules! unrolled_128 {
     };
 }
 pub(crate) use unrolled_128;
+/// Same for at most 4 iterations (large bodies: 128 copies of a body full of
+/// assertions make goto-instrument's loop normalisation crawl).
+macro_rules! unrolled_4 {
+    ($n:expr, $i:ident => $body:block) => {
+        if 0 < $n { let $i: usize = 0; $body }
+        if 1 < $n { let $i: usize = 1; $body }
+        if 2 < $n { let $i: usize = 2; $body }
+        if 3 < $n { let $i: usize = 3; $body }
+    };
+}
+pub(crate) use unrolled_4;
 pub(crate) const UNROLL_MAX: usize = 128;
 
 // ---------------------------------------------------------------------------
